@@ -300,6 +300,15 @@ def rule_xlsx_writer_rejected_rows(ctx):
     decide(ctx, "O16.5b", "XlsxRowWriter(a rejected row leaves nothing behind)", "cutplace.rowio.XlsxRowWriter.write_row", cell, min_cells=6, max_report=3)
 
 
+def rule_sheet_property(ctx):
+    """O16.7: "the sheet that is read is the one the Sheet property requests": the number in the Sheet row is the number the
+    data format stores (C11's set_property table; O16.6 takes it from there to excel_rows)."""
+    from .c11 import rule_set_property
+
+    ctx.res.minimum("O16.7", 1)
+    rule_set_property(ctx, rule="O16.7")
+
+
 def rule_raw_rows_dispatch(ctx):
     """O16.6: the requested sheet number reaches excel_rows."""
     from .c17 import raw_rows_dispatch_table
@@ -310,4 +319,4 @@ def rule_raw_rows_dispatch(ctx):
 
 from .common import rule_module_state  # noqa: E402
 
-RULES = [rule_sheet_selection, rule_cell_values, rule_xlsx_writer, rule_xlsx_writer_rejected_rows, rule_raw_rows_dispatch, rule_module_state]
+RULES = [rule_sheet_selection, rule_cell_values, rule_xlsx_writer, rule_xlsx_writer_rejected_rows, rule_raw_rows_dispatch, rule_sheet_property, rule_module_state]
